@@ -20,6 +20,9 @@ STMT = {
     ('dbg_elif',): 'if __debug__: emit("dbg")\nelif emit("elif"): emit("elifbody")',
     ('notdbg',): 'if not __debug__: emit("notdbg")', ('dbg_isfalse',): 'if __debug__ is False: emit("dbgfalse")',
     ('x_is_true',): 'if xflag is True: emit("xtrue")', ('x_eq_true',): 'if xflag == True: emit("xeq")', ('true_is_dbg',): 'if True is __debug__: emit("tdbg")',
+    ('dbg_bind',): 'if __debug__: zq = emit("dbgbind")', ('assert_bind',): 'assert (zq := emit("assertbind"))',
+    ('use_zq',): 'try: emit(("zq", zq))\nexcept NameError: emit("zq-unbound")',
+    ('nl_zq',): '@(lambda f: f())\ndef inner():\n    nonlocal zq\n    zq = "set-by-inner"\n    emit("inner-ran")',
     ('annval',): 'av: int = emit("annval")', ('annnoval',): 'an: int',
     ('raise0',): 'raise ValueError()', ('raiseargs',): 'raise ValueError("a")', ('raisefrom',): 'raise ValueError() from KeyError()',
     ('raiseuser',): 'raise UserExc()', ('classobj',): 'class Inner(object): emit("inner")', ('other',): 'emit("other")', ('other2',): 'emit("other2")',
@@ -81,15 +84,21 @@ def wrap(ctx, body):
     raise ValueError(ctx)
 
 
-def concretize(ctx, env, blk):
+# how a module that "uses the __doc__ name" spells that use (statements appended after the block)
+DOC_USE = {'load': 'emit(("doc", __doc__))', 'aug': '__doc__ += "+more"', 'store': '__doc__ = "replaced"',
+           'func': 'def docreader():\n    return __doc__\nemit(("doc", docreader()))', 'del': 'del __doc__'}
+DOC_USE_N = {'load': 1, 'aug': 1, 'store': 1, 'func': 2, 'del': 1}
+
+
+def concretize(ctx, env, blk, doc_use='load'):
     body = '\n'.join(STMT[tuple(st)] for st in blk)
     wrapped, path = wrap(ctx, body)
-    pre = 'class UserExc(Exception): pass\nxflag = True\n'
+    pre = 'class UserExc(Exception): pass\nxflag = True\nzq = "global-zq"\n'
     if env.get('shadow'):
         pre += 'def ValueError():\n    return KeyError("made")\n'
     post = ''
     if env.get('usesDoc'):
-        post += 'emit(("doc", __doc__))\n'
+        post += DOC_USE[doc_use] + '\n'
     if env.get('tainted'):
         post += 'emit(("ev", eval("1")))\n'
     if ctx == 'module_top':
@@ -98,7 +107,7 @@ def concretize(ctx, env, blk):
         npre = 0
     else:
         src = pre + wrapped + '\n' + post
-        npre = 2 + (1 if env.get('shadow') else 0)
+        npre = 3 + (1 if env.get('shadow') else 0)
     return src, path, npre, len(blk)
 
 
@@ -107,8 +116,8 @@ def locate(tree, ctx, path, npre, nblk_in, npost):
     if ctx == 'module':
         return body[npre:len(body) - npost]
     if ctx == 'module_top':
-        # the helpers after the block: class UserExc, xflag, [ValueError], post statements
-        ntail = 2 + npre_tail[0] + npost
+        # the helpers after the block: class UserExc, xflag, zq, [ValueError], post statements
+        ntail = 3 + npre_tail[0] + npost
         return body[:len(body) - ntail]
     kind, name = path
     for n in ast.walk(tree):
@@ -184,6 +193,15 @@ def classify(st):
             return ['retval']
     if isinstance(st, ast.Assert) and _is_emit(st.test, 'assert-test') and st.msg is None:
         return ['assert']
+    if isinstance(st, ast.Assert) and st.msg is None and isinstance(st.test, ast.NamedExpr) and st.test.target.id == 'zq' and _is_emit(st.test.value, 'assertbind'):
+        return ['assert_bind']
+    if (isinstance(st, ast.If) and _dbg(st.test) and not st.orelse and len(st.body) == 1 and isinstance(st.body[0], ast.Assign)
+            and ast.dump(st.body[0].targets[0]) == ast.dump(ast.Name(id='zq', ctx=ast.Store())) and len(st.body[0].targets) == 1 and _is_emit(st.body[0].value, 'dbgbind')):
+        return ['dbg_bind']
+    if isinstance(st, ast.Try) and ast.dump(st) == ast.dump(ast.parse(STMT[('use_zq',)]).body[0]):
+        return ['use_zq']
+    if isinstance(st, ast.FunctionDef) and st.name == 'inner' and ast.dump(st) == ast.dump(ast.parse(STMT[('nl_zq',)]).body[0]):
+        return ['nl_zq']
     if isinstance(st, ast.If):
         t = st.test
         one = len(st.body) == 1 and isinstance(st.body[0], ast.Expr) and _is_emit(st.body[0].value)
@@ -248,7 +266,7 @@ def classify(st):
     return ['unknown', ast.dump(st)[:60]]
 
 
-def run(src, optimize):
+def run(src, optimize, doc=False):
     log = []
     ns = {'emit': lambda v: (log.append(repr(v)), True)[1], '__name__': 'suiteprog'}
     try:
@@ -256,6 +274,8 @@ def run(src, optimize):
         exc = ''
     except BaseException as e:  # noqa
         exc = type(e).__name__
+    if doc:
+        log.append('__doc__=%r' % (ns.get('__doc__', '<unbound>'),))
     return '|'.join(log) + '#' + exc
 
 
@@ -269,7 +289,8 @@ def observe(job):
     import python_minifier
     from python_minifier.transforms.remove_annotations_options import RemoveAnnotationsOptions
     ctx, env, blk, opts = job['ctx'], job['env'], job['blk'], set(job['opts'])
-    src, path, npre, nblk = concretize(ctx, env, blk)
+    doc_use = job.get('doc_use', 'load')
+    src, path, npre, nblk = concretize(ctx, env, blk, doc_use)
     try:
         compile(src, 'in', 'exec')
     except SyntaxError as e:
@@ -289,13 +310,14 @@ def observe(job):
     rec['_src'], rec['_out'] = src, out
     try:
         t = ast.parse(out)
-        npost = (1 if env.get('usesDoc') else 0) + (1 if env.get('tainted') else 0)
+        npost = (DOC_USE_N[doc_use] if env.get('usesDoc') else 0) + (1 if env.get('tainted') else 0)
         npre_tail[0] = 1 if env.get('shadow') else 0
         stmts = locate(t, ctx, path, npre, nblk, npost)
         rec['out_blk'] = [classify(s) for s in stmts]
     except Exception as e:  # noqa
         rec['located'] = False
         rec['msg'] = type(e).__name__ + ':' + str(e)[:60]
-    rec['run0_in'], rec['run0_out'] = run(src, 0), run(out, 0)
-    rec['run1_in'], rec['run1_out'] = run(src, 1), run(out, 1)
+    doc = bool(env.get('usesDoc'))
+    rec['run0_in'], rec['run0_out'] = run(src, 0, doc), run(out, 0, doc)
+    rec['run1_in'], rec['run1_out'] = run(src, 1, doc), run(out, 1, doc)
     return rec
